@@ -10,7 +10,9 @@ separate enqueues) and the table refresh:
  3. spec -> code: TLC simulation emits command/migration histories; replayed end-to-end (see C03), replies compared
     with the single-server reference, no MOVED/ASK may reach the client, each write executed exactly once, one copy of
     each key at the end, redirections stop within 4 refresh rounds once the layout has settled (C07, second sentence);
- 4. the counterexample of (2) is forced on the real code with one pause point between ASKING and the resent command.
+ 4. the counterexample of (2) is forced on the real code with one pause point between ASKING and the resent command;
+ 5. failover: a master is replaced by its replica (old master dies or is demoted); TLC: ConvergesAfterDialError (the pinned
+    variant without refresh-on-dial-error must fail); code: reads heal within a few requests, writes reach the new master.
 """
 import os
 
@@ -24,7 +26,7 @@ def run(ctx):
     ctx.build("cluster")
     ctx.assumptions += [
         "one migration per model run (a redirection delayed across several migrations of the same slot misbehaves with any Redis Cluster client)",
-        "failover is not part of the model; node semantics are those of harness/internal/simredis",
+        "failover is modelled as a standby node taking over slots and data of a master that dies (no asynchronous replication lag); node semantics are those of harness/internal/simredis",
         "MaxHops bounds redirections per request in the exhaustive runs (state constraint)",
     ]
     r = ctx.mc("redis", "MC_Cluster", "MC_Cluster_migration.cfg", workers=8, timeout=1500, coverage=False)
@@ -32,7 +34,31 @@ def run(ctx):
            expect_violated=["SingleCopy", "CopyIsReference", "EqualsReference"], count=False)
     if ctx.thorough:
         ctx.mc("redis", "MC_Cluster", "MC_Cluster_migration_emptytable_atomic.cfg", workers=8, timeout=1500)
+    # failover: a master is replaced by a standby node and dies; a request that fails against the dead master must make
+    # the table converge (repaired code: a dial error triggers a refresh); the pinned variant must fail
+    ctx.mc("redis", "MC_Cluster", "MC_Cluster_failover_fixed.cfg", workers=8, timeout=900)
+    ctx.mc("redis", "MC_Cluster", "MC_Cluster_failover_pinned.cfg", workers=4, timeout=600,
+           expect_violated=["TEMPORAL", "ConvergesAfterDialError"], count=False)
     clusterlib.gen_and_replay(ctx, "Gen_Cluster_migration.cfg", 250 if ctx.thorough else 30, False, "migration")
+    ffile = os.path.join(ctx.work, "failover.ndjson")
+    ctx.harness(["cluster-failover", "-out", ffile, "-runs", "24" if ctx.thorough else "4"], timeout=900, name="cluster")
+    for r in kit.read_ndjson(ffile):
+        if r.get("err"):
+            ctx.notes.append("failover: " + r["err"])
+            continue
+        ctx.case(key=["failover", r["run"], r["kill"], r["healedAt"]], nontrivial=True)
+        kind = "old-master-dies" if r["kill"] else "old-master-demoted"
+        if r["leaked"]:
+            ctx.violation("redirect-leak/failover/" + kind, "a MOVED/ASK reached the client after a failover: %s" % r["replies"], r)
+        if r["wrongValue"]:
+            ctx.violation("reply-differs/failover/" + kind, "a read after the failover returned a wrong value: %s" % r["replies"], r)
+        if r["healedAt"] < 0 or r["healedAt"] > 4:
+            ctx.violation("no-convergence/failover/" + kind,
+                          "the promoted replica is reachable but reads keep failing (healed at request %d): %s" % (r["healedAt"], r["replies"][:4]), r)
+        elif not r["writeOK"]:
+            ctx.violation("write-after-failover/" + kind, "a write after the failover was not served by the new master", r)
+        else:
+            ctx.cov["traces_validated_against_impl"] += 1
     afile = os.path.join(ctx.work, "askrace.ndjson")
     ctx.harness(["cluster-askrace", "-out", afile, "-runs", "6" if ctx.thorough else "2"], timeout=600, name="cluster")
     for r in kit.read_ndjson(afile):
